@@ -19,7 +19,7 @@ use {
     failspot::failspot,
     nix::{
         errno::Errno,
-        sys::{ptrace, signal, wait},
+        sys::{ptrace, signal},
     },
     procfs_core::{
         process::{MMPermissions, ProcState, Stat},
@@ -280,33 +280,47 @@ impl PtraceDumper {
         // This may fail if the thread has just died or debugged.
         ptrace::attach(pid).map_err(|e| AttachErr(child, e))?;
         loop {
-            match wait::waitpid(pid, Some(wait::WaitPidFlag::__WALL)) {
-                Ok(status) => {
-                    let wait::WaitStatus::Stopped(_, status) = status else {
-                        return Err(DumperError::WaitPidError(
-                            child,
-                            nix::errno::Errno::UnknownErrno,
-                        ));
-                    };
-
-                    // Any signal will stop the thread, make sure it is SIGSTOP. Otherwise, this
-                    // signal will be delivered after PTRACE_DETACH, and the thread will enter
-                    // the "T (stopped)" state.
-                    if status == nix::sys::signal::SIGSTOP {
-                        break;
-                    }
-
-                    // Signals other than SIGSTOP that are received need to be reinjected,
-                    // or they will otherwise get lost.
-                    if let Err(err) = ptrace::cont(pid, status) {
-                        return Err(DumperError::WaitPidError(child, err));
+            // Not `nix::sys::wait::waitpid`: it cannot represent a stop caused by a realtime
+            // signal (it fails with EINVAL), and such a signal has to be passed on like any other.
+            let mut status: libc::c_int = 0;
+            // SAFETY: plain syscall with a valid out pointer
+            if unsafe { libc::waitpid(child, &mut status, libc::__WALL) } == -1 {
+                match Errno::last() {
+                    Errno::EINTR => continue,
+                    e => {
+                        ptrace_detach(child)?;
+                        return Err(DumperError::WaitPidError(child, e));
                     }
                 }
-                Err(Errno::EINTR) => continue,
-                Err(e) => {
-                    ptrace_detach(child)?;
-                    return Err(DumperError::WaitPidError(child, e));
-                }
+            }
+            if !libc::WIFSTOPPED(status) {
+                return Err(DumperError::WaitPidError(
+                    child,
+                    nix::errno::Errno::UnknownErrno,
+                ));
+            }
+            let signal = libc::WSTOPSIG(status);
+
+            // Any signal will stop the thread, make sure it is SIGSTOP. Otherwise, this
+            // signal will be delivered after PTRACE_DETACH, and the thread will enter
+            // the "T (stopped)" state.
+            if signal == libc::SIGSTOP {
+                break;
+            }
+
+            // Signals other than SIGSTOP that are received need to be reinjected,
+            // or they will otherwise get lost.
+            // SAFETY: plain syscall, the tracee is in signal-delivery-stop
+            if unsafe {
+                libc::ptrace(
+                    libc::PTRACE_CONT,
+                    child,
+                    std::ptr::null_mut::<libc::c_void>(),
+                    signal as usize as *mut libc::c_void,
+                )
+            } == -1
+            {
+                return Err(DumperError::WaitPidError(child, Errno::last()));
             }
         }
         #[cfg(any(target_arch = "x86", target_arch = "x86_64"))]
